@@ -10,6 +10,7 @@ import io
 import itertools
 import os
 import shutil
+import atexit
 import tempfile
 import warnings
 
@@ -134,7 +135,9 @@ _TMP = [None]
 
 
 def setup(ctx):
-    _TMP[0] = tempfile.mkdtemp(prefix="verif-c20-")
+    if _TMP[0] is None or not os.path.isdir(_TMP[0]):   # replay/shrink call setup repeatedly: one scratch dir per process
+        _TMP[0] = tempfile.mkdtemp(prefix="verif-c20-")
+        atexit.register(shutil.rmtree, _TMP[0], True)
     for enc in ("utf-8", "latin-1", "gbk", "utf-16", "ascii"):
         codecs.lookup(enc)
         "x".encode(enc).decode(enc)
